@@ -244,7 +244,7 @@ fn run_op(op: &str, spec: &str, input: &str) -> String {
                 .map(|(n, d)| format!("{}={}", dots(n), dots(d)))
                 .collect::<Vec<_>>()
                 .join(";");
-            let (_tl, br) = cb.bounds().unwrap_or((Cell::new(0, 0), Cell::new(0, 0)));
+            let br = cb.verif_last_occupied();
             format!(
                 "cells {} | esc {} | css {} | L {} | B {},{}",
                 cells,
@@ -302,7 +302,7 @@ fn run_op(op: &str, spec: &str, input: &str) -> String {
                 .join(";");
             write!(out, " | E {}", esct).unwrap();
             write!(out, " | L {}", dots(&cb.verif_legend_css())).unwrap();
-            let (_tl, br) = cb.bounds().unwrap_or((Cell::new(0, 0), Cell::new(0, 0)));
+            let br = cb.verif_last_occupied();
             write!(out, " | B {},{}", br.x, br.y).unwrap();
             out
         }
